@@ -273,7 +273,7 @@ def eval_case(case: dict) -> dict:
         cnt["bfs_fixpoint_reached" if not capped else "bfs_capped"] = 1
         cnt["bfs_max_history_len"] = max((len(h) for h, _ in seen.values()), default=0)
     return {
-        "viol": viol, "nt": n_obs > 1, "cnt": {k: v for k, v in cnt.items() if v}, "observations": n_obs,
+        "viol": viol, "nt": n_obs > 1, "cnt": {k: v for k, v in cnt.items() if v}, "observations": n_obs, "evals": n_obs,
         "cands": sorted(cands), "elim": [[list(c), v] for c, v in elim.items()],
         "trans": [[list(s), list(e), sorted([b, list(s2)] for b, s2 in outs)] for (s, e), outs in trans.items()],
         "states": 0, "transitions": 0,
